@@ -168,8 +168,10 @@ func C10(r *vf.Run) {
 
 		// ---- writer: a history of write lengths
 		var lens []int
-		shape := g.Intn(7)
+		shape := g.Intn(8)
 		switch shape {
+		case 7: // one huge write (>= 64 KiB): far beyond any bank window, must be refused as a whole
+			lens = []int{[]int{0x10000, 0x10000 + g.Intn(win+1), 0x10000 + win, 0x20000 + g.Intn(0x8000), 0x24000}[g.Intn(5)], 1}
 		case 0: // ones up to / beyond the end
 			for i := 0; i < min(win, 20)+2; i++ {
 				lens = append(lens, 1)
